@@ -841,6 +841,9 @@ func (e *SpecEnv) call(n *SCall) Value {
 		return boolV(mkAnd(mkCmp("<", "0", ref), mkCmp("<", ref, e.st.alloc)))
 	case "bigval":
 		v := e.eval(n.Args[0])
+		if v.K == KOpaque {
+			return intV(v.S) // a big.Int value (e.g. one held in the state store)
+		}
 		return intV(x.bigVal(e.st, v.S))
 	case "ref":
 		v := e.eval(n.Args[0])
@@ -893,13 +896,21 @@ func (e *SpecEnv) call(n *SCall) Value {
 	case "storedval":
 		// storedval(store, key, T): the value of Go type T stored under key
 		s, k := e.eval(n.Args[0]), e.eval(n.Args[1])
-		id, ok := n.Args[2].(*SIdent)
-		if !ok {
+		tname := ""
+		switch id := n.Args[2].(type) {
+		case *SIdent:
+			tname = id.Name
+		case *SSel:
+			if p, ok := id.X.(*SIdent); ok {
+				tname = p.Name + "." + id.Name
+			}
+		}
+		if tname == "" {
 			specFail("storedval(store, key, TypeName)")
 		}
-		t := e.lookupType(id.Name)
+		t := e.lookupType(tname)
 		if t == nil {
-			specFail("storedval: unknown type %s", id.Name)
+			specFail("storedval: unknown type %s", tname)
 		}
 		return x.ssValue(e.st, s.S, k.S, t)
 	case "pure":
